@@ -47,6 +47,18 @@ Theorem C19_tuple_key_bytes :
 Proof. exact tuple_key_bytes_proof. Qed.
 Print Assumptions C19_tuple_key_bytes.
 
+(* Reply direction: the key copy_reversed_tuples() builds from the packet of flow f, WHATEVER the destination
+   slot held before (every call site passes an uninitialised stack variable), is the key of the reversed flow,
+   padding zero, and is byte-identical to the control plane's key of the reversed tuple. *)
+Theorem C19_reversed_tuple_key_bytes :
+  forall (e : endian) (f : flow) (gs gd : goaddr) (prior : list N),
+    flow_ok f -> same_family f -> go_repr gs (f_src f) -> go_repr gd (f_dst f) ->
+    List.length prior = size_tk_c ->
+    c_reversed_flow_key e prior f = Some (spec_tuple_key (reverse_flow f))
+    /\ go_tuples_key e gd gs (f_dport f) (f_sport f) (f_proto f) = spec_tuple_key (reverse_flow f).
+Proof. exact reversed_tuple_key_bytes_proof. Qed.
+Print Assumptions C19_reversed_tuple_key_bytes.
+
 (* LPM keys: every prefix in every Go representation gives the spec key; the kernel's lookup keys for a
    packet are the full-length spec keys of its addresses; a host prefix's key is byte-identical to the lookup key. *)
 Theorem C19_lpm_key_bytes :
